@@ -217,9 +217,12 @@ func solveFunc(ctx context.Context, vc *FuncVC, timeoutMs int, dir string, sem c
 		mu.Lock()
 		defer mu.Unlock()
 		for i, o := range obls {
-			ok := o.Vac
+			ok := false
 			for _, so := range outs {
 				a := so.answers[i]
+				if o.Vac && (a == "unknown" || a == "timeout") {
+					ok = true
+				}
 				if o.Vac && (a == "sat" || a == "unsat") || !o.Vac && (a == "unsat" || a == "sat") {
 					ok = true
 				}
@@ -277,7 +280,7 @@ func solveFunc(ctx context.Context, vc *FuncVC, timeoutMs int, dir string, sem c
 			case unsat != "":
 				res.Status, res.Solver = "vacuous", unsat
 			default:
-				res.Status = "undecided"
+				res.Status = "cover-unknown" // not shown unsatisfiable: the contract is not vacuous as far as the solvers can tell
 			}
 			continue
 		}
